@@ -3982,7 +3982,8 @@ class SubProofMacro(Macro):
         goal_neg_tms = args[:-1]
         goal_concl = args[-1]
         if all(g == Not(p) for g, p in zip(goal_neg_tms, input_prop)) and goal_concl == concl:
-            return Thm(Or(*args))
+            # Only the assumptions of the subproof are discharged
+            return Thm(Or(*args), tuple(hyp for hyp in prevs[-1].hyps if hyp not in input_prop))
         else:
             raise VeriTException("subproof", "unexpected result")
 
